@@ -107,11 +107,12 @@ for pid, what in [
     ("C02", "every snapshot opens with Db, DbFile, DbAny::new_file and DbAny::new_mapped and the complete canonical dump (every element, property, alias, index) succeeds without error or panic"),
     ("C03", "the exact canonical dump of the recovered database equals the dump before or after the interrupted query / transaction"),
 ]:
-    add(pid, "fault_enumeration", ["dbh"], dbh("crash_" + pid.lower()),
+    add(pid, "fault_enumeration", ["dbh"], dbh("crash_" + pid.lower(), None, ["--n", "160"]),
         "crash-point enumeration over hooked file-system calls of generated query histories + recovery oracle",
-        "Generated histories (queries, committed and rolled-back multi-query transactions, close+reopen with defragmentation) recorded through the "
+        "Generated histories (queries, committed and rolled-back multi-query transactions, rename, close+reopen with defragmentation) recorded through the "
         "fs_event hooks; every prefix of the mutating file-system calls (an even sample for histories with more than ~1200 calls in the quick tier) "
-        "is materialised and reopened with the real code: " + what + ".",
+        "is materialised and reopened with the real code: " + what + ". Before every 37th call the real files are also copied as found under the "
+        "database's current name and, where they differ from the materialised images, put through the same oracle.",
         "Trusts the fs_event hooks to see every mutating call (self-checked against the real files after every recorded run); crash granularity "
         "is one system call; no OS write reordering; creation of the empty database is outside the quantifier.",
         "DESIGN.md §6 " + pid + ", §5.5")
